@@ -25,11 +25,20 @@ inductive Auth
   | block  -- blocks until the context it was given ends, returns that context's error
   deriving DecidableEq, Repr
 
+/-- the handler's TokenSource, consulted by setMCPHeaders before every POST -/
+inductive TS
+  | fine          -- nil before the authorization, a token afterwards
+  | tsErr         -- TokenSource itself fails
+  | tokErr        -- the source's Token() fails (not invalid_grant)
+  | invalidGrant  -- Token() fails with an oauth2.RetrieveError "invalid_grant" before the authorization: the request goes out without a header
+  deriving DecidableEq, Repr
+
 /-- what a 2xx answer carries -/
 inductive Payload
   | json     -- application/json, the response to the call, complete
   | jsonBad  -- application/json, not a JSON-RPC message
   | jsonCut  -- application/json, the body ends with a read error
+  | jsonHang -- application/json, the body never comes: the read returns when the request's context ends
   | sse      -- text/event-stream with the response event, complete
   | other    -- another content type
   deriving DecidableEq, Repr
@@ -49,6 +58,7 @@ inductive Kind
 structure Scn where
   kind : Kind := .call
   auth : Auth := .none
+  ts : TS := .fine
   /-- the caller's context ends while the message is still on its way (the harness: one virtual hour after the start) -/
   cancel : Bool := false
   a1 : Ans := .terr
@@ -56,7 +66,7 @@ structure Scn where
   deriving DecidableEq, Repr
 
 inductive EKind
-  | terr | ctx | auth | rpc | transient (c : Nat) | gone | status (c : Nat) | mismatch | ctype | body | decode
+  | terr | ctx | auth | tokenSource | rpc | transient (c : Nat) | gone | status (c : Nat) | mismatch | ctype | body | decode
   deriving DecidableEq, Repr
 
 /-- how the message ends for its sender -/
@@ -86,7 +96,7 @@ def isTransient (c : Nat) : Bool := Generated.ClientStream.transientStatuses.con
 def isGone (c : Nat) : Bool := c == Generated.ClientStream.sessionGoneStatus
 
 /-- checkResponse and the rest of Write, for an answer that is a response -/
-def afterResponse (k : Kind) : Ans → End × Conn
+def afterResponse (cancel : Bool) (k : Kind) : Ans → End × Conn
   | .st c rpc =>
     if rpc then (.err .rpc, .usable)                          -- ErrRejected, carries the JSON-RPC error
     else if isTransient c then (.err (.transient c), .usable) -- ErrRejected
@@ -102,21 +112,28 @@ def afterResponse (k : Kind) : Ans → End × Conn
         | .sse => (.result, .usable)                          -- handleSSE (model: ClientStream)
         | .jsonBad => (.err .decode, .dead)                   -- handleJSON: c.fail
         | .jsonCut => (.err .body, .dead)                     -- handleJSON: c.fail (the caller's context is live)
+        | .jsonHang =>                                        -- Write has returned; the caller waits in Await(ctx);
+          if cancel then (.err .ctx, .usable)                 -- handleJSON: `ctx.Err() != nil`: return, no c.fail
+          else (.blocked, .usable)
         | .other => (.err .ctype, .dead)                      -- "unsupported content type"
   | .terr => (.err .terr, .usable)
   | .hang => (.blocked, .usable)
 
-/-- doRequest with a request bound to a context that ends iff `ends` -/
-def attempt (ends : Bool) (k : Kind) : Ans → End × Conn
+/-- doRequest with a request bound to a context that ends iff `ends`; `cancel`: the caller's context ends -/
+def attempt (ends cancel : Bool) (k : Kind) : Ans → End × Conn
   | .terr => (.err .terr, .usable)                            -- ErrRejected
   | .hang => if ends then (.err .ctx, .usable) else (.blocked, .usable)
-  | a => afterResponse k a
+  | a => afterResponse cancel k a
 
 /-- the context the retried POST is bound to ends with the caller's iff the code binds it to the caller's -/
 def retryEnds (s : Scn) : Bool := s.cancel && Generated.ClientWrite.retryBoundToCaller
 
+/-- setMCPHeaders fails: the message is not sent (ErrRejected) -/
+def tsFails (s : Scn) : Bool := s.auth != .none && (s.ts == .tsErr || s.ts == .tokErr)
+
 /-- Write -/
 def run (s : Scn) : Out :=
+  if tsFails s then { posts := 0, auths := 0, toks := [], end_ := .err .tokenSource, conn := .usable } else
   match s.a1 with
   | .st c rpc =>
     if isAuthStatus c && s.auth != .none then
@@ -127,13 +144,13 @@ def run (s : Scn) : Out :=
         if s.cancel then { posts := 1, auths := 1, toks := [false], end_ := .err .ctx, conn := .dead }
         else { posts := 1, auths := 1, toks := [false], end_ := .blocked, conn := .usable }
       | _ =>
-        let r := attempt (retryEnds s) s.kind s.a2
+        let r := attempt (retryEnds s) s.cancel s.kind s.a2
         { posts := 2, auths := 1, toks := [false, true], end_ := r.1, conn := r.2 }
     else
-      let r := afterResponse s.kind (.st c rpc)
+      let r := afterResponse s.cancel s.kind (.st c rpc)
       { posts := 1, auths := 0, toks := [false], end_ := r.1, conn := r.2 }
   | a =>
-    let r := attempt s.cancel s.kind a
+    let r := attempt s.cancel s.cancel s.kind a
     { posts := 1, auths := 0, toks := [false], end_ := r.1, conn := r.2 }
 
 /-- the scenario hypothesis: a `st` answer carries a status outside 2xx -/
